@@ -17,6 +17,7 @@ import RavenModel.Model.Slices
 import RavenModel.Model.Lifetime
 import RavenModel.Model.Deliver
 import RavenModel.Model.Mime
+import RavenModel.Model.Lsub
 /-! Line protocol: one op per line (`op arg …`, byte-string args hex encoded, `-` = empty, `.` = empty list),
 one canonical line out. Stateful ops (`m.*`) act on the driver's mailbox-machine state. -/
 open Raven
@@ -31,6 +32,9 @@ def opsC18 : List String → Option String
   | ["wback", t, p] => some (boolS (Wild.wmatch (ListMatch.normInbox (unhex p)) (ListMatch.normInbox (unhex t))))
   | ["canon", r, p] => some (hexOut (ListMatch.canonical (unhex r) (unhex p)))
   | "filter" :: r :: p :: names => some (hexList (ListMatch.filter (unhexList names) (unhex r) (unhex p)))
+  | "lsub" :: r :: p :: subs =>
+    let (m, i) := Lsub.shown (unhexList subs) (unhex r) (unhex p)
+    some (hexList (m ++ i.filter (fun x => !m.contains x)))
   | ["cells", t, p] => some (toString (Wild.cellsWritten (unhex p) (unhex t)))
   | _ => none
 
